@@ -31,7 +31,7 @@ pub fn generate(prop: &str, seed: u64, tier: Tier, run_index: u64) -> Scenario {
         "C06" => c06::generate(&mut r, tier, run_index),
         "C03" => c03::generate(&mut r, tier),
         "C11" => c11::generate(&mut r, tier),
-        "C12" if run_index == 0 => c12::generate_scaling(&mut r, tier),
+        "C12" if run_index < 2 => c12::generate_scaling(&mut r, tier, run_index),
         "C12" => c12::generate(&mut r, tier),
         "C10" => c10::generate(&mut r, tier),
         "C18" => c18::generate(&mut r, tier),
